@@ -100,6 +100,7 @@ impl Which {
                 o.rep_weight = 60;
                 o.group_weight = 40;
                 o.min_macros = 1;
+                o.macro_focus = true;
             }
             Which::C17 => {
                 o.builtin = 0;
